@@ -237,8 +237,10 @@ def add_conc(case, rng):
         else:
             a, b = sorted([rng.choice(pos), rng.choice(pos)])
             bounds = [a, b]
-        ops = avoid_known(gen_ops(rng, setup, key, bounds), rng)
-        ops = [o for o in ops if o["c"] != "set_bounds"] if writer else ops
+        ops = gen_ops(rng, setup, key, bounds)
+        if writer:
+            ops = [o for o in ops if o["c"] != "set_bounds"]     # bounds stay below the writer's range
+        ops = avoid_known(ops, rng)      # after the filter: it must see the final neighbours of every SeekLast
         if ops[0]["c"] not in SEEKS:
             ops.insert(0, {"c": rng.choice(["seek_first", "seek_last"])})
             ops = avoid_known(ops, rng)
@@ -365,35 +367,46 @@ def diagnose(case, r):
             for a, b in re.findall(r"\((\d+), \[([\d; ]*)\]\)", m.group(1))]
 
 
+def _eof_signature(ops, outs, n, codes):
+    """command n is a SeekLast rejected by the traversal clause (7) only, and the pure Prev(auto)
+    run that follows it stops with the error of backwardStamp on a chunk boundary at the first
+    sample of a domain: io.EOF (class 5) or 'failed to resolve position'"""
+    if codes != [7] or n >= len(ops) or ops[n]["c"] != "seek_last":
+        return False
+    j = n + 1
+    while j < len(ops) and j < len(outs) and ops[j]["c"] == "prev_auto":
+        if outs[j]["err"] == 5 or (outs[j]["err"] == 1 and "failed to resolve position" in (outs[j].get("msg") or "")):
+            return True
+        if outs[j]["err"] != 0:
+            return False
+        j += 1
+    return False
+
+
 def tags(case, r):
-    """Signature of the known finding: every rejected clause is the traversal clause (7) of a
-    SeekLast whose following pure Prev(auto) run stops with the error of backwardStamp on a chunk
-    boundary at the first sample of a domain: io.EOF (class 5) or 'failed to resolve position'."""
+    """Signature of the known finding C10-auto-prev-eof: EVERY rejected clause, of the sequential
+    commands and of every outcome of the concurrent phase, is the traversal clause of a SeekLast
+    followed by a pure Prev(auto) run ending in the backwardStamp error. Anything else is tagged
+    with the clauses that are not explained by it."""
     if r is None or r.get("panic") or r.get("fatal") or not r.get("outs"):
         return set()
     d = diagnose(case, r)
     if not d:
         return set()
-    ops = case["ops"]
-    conc = [codes for n, codes in d if n >= 1000]
-    if conc:
-        # a worker of the concurrent phase is rejected: never the known finding
-        return {"concurrent-clause-%s" % "-".join(map(str, sorted({x for cs in conc for x in cs})))}
+    variants = [(w["ops"], outs) for w, wr in zip((case.get("conc") or {}).get("workers", []), r.get("conc") or [])
+                for outs in wr["variants"]]
+    other_seq, other_conc = set(), set()
     for n, codes in d:
-        if codes != [7] or ops[n]["c"] != "seek_last":
-            return {"clause-%s" % "-".join(map(str, codes))}
-        j = n + 1
-        eof = False
-        while j < len(ops) and ops[j]["c"] == "prev_auto":
-            if r["outs"][j]["err"] == 5 or (r["outs"][j]["err"] == 1 and
-                                            "failed to resolve position" in (r["outs"][j].get("msg") or "")):
-                eof = True
-                break
-            if r["outs"][j]["err"] != 0:
-                break
-            j += 1
-        if not eof:
-            return {"clause-7"}
+        if n >= 1000:
+            v = n // 1000 - 1
+            if not (v < len(variants) and _eof_signature(variants[v][0], variants[v][1], n % 1000, codes)):
+                other_conc.update(codes)
+        elif not _eof_signature(case["ops"], r["outs"], n, codes):
+            other_seq.update(codes)
+    if other_conc:
+        return {"concurrent-clause-%s" % "-".join(map(str, sorted(other_conc)))}
+    if other_seq:
+        return {"clause-%s" % "-".join(map(str, sorted(other_seq)))}
     return {KNOWN_EOF}
 
 
